@@ -21,7 +21,7 @@ ID = "C13"
 LEVEL = "fault_enumeration"
 RULE = (
     "Hypothesis-generated histories of 1-6 operations on a CSV database (auto_index on/off); the last operation (insert, insert_multiple, hitting update / remove, drop_measurement, remove_all, reindex, "
-    "a read) is run once to number its I/O calls, then re-run on a fresh copy once per chosen call index k and variant with an OSError injected there, followed by generated reads, one insert, close and reopen. "
+    "a read) is run once to number its I/O calls, then re-run on a fresh copy once per chosen call index k and variant with an OSError injected there, followed by generated reads, one insert, one further update/remove, close and reopen. "
     "Quick: <= 14 (k, variant) pairs per case chosen to cover every step kind of the operation; thorough: all. Non-trivial = fault injected after the first byte of the operation was written (a write step precedes k), "
     "i.e. the state really is mid-operation; distinct by (operation kind, step kind, variant, k relative to the operation)."
 )
@@ -40,6 +40,25 @@ READ_Q = [
 ]
 
 
+REWRITES = [
+    ("remove", ["leaf", "tag", [["key", "a"]], ["exists"]], None),
+    ("remove", ["leaf", "meas", [], ["cmp", "==", "m1"]], None),
+    ("update", ["leaf", "time", [], ["noop"]], {"tags": {"zz": "1"}}),
+    ("update", ["leaf", "field", [["key", "a"]], ["exists"]], {"fields": {"a": 5}}),
+    ("remove", ["leaf", "time", [], ["cmp", "<", gen.T0]], None),
+]
+
+
+def apply_rewrite(points, rw):
+    m = model.Model(copy.deepcopy(points))
+    kind, q, kw = rw
+    if kind == "remove":
+        m.remove(q)
+    else:
+        m.update(q, None, **kw)
+    return m.points
+
+
 @st.composite
 def cases(draw):
     pts = gen.points()
@@ -54,10 +73,13 @@ def cases(draw):
         st.tuples(st.just("insert_multiple"), st.lists(pts, min_size=1, max_size=3), st.integers(0, 3), st.sampled_from(["inorder", "asis"]), st.just("db"), st.none(), st.just("m1")).map(list),
         gen_ops.op_remove_hit(), gen_ops.op_remove_hit(), gen_ops.op_update_hit(), gen_ops.op_update_hit(),
         gen_ops.op_drop(), gen_ops.op_remove_all(), st.just(["reindex"]), gen_ops.op_probe_hit(),
+        # operations that stage rows but end up changing nothing (no swap)
+        st.tuples(st.just("update_hit"), gen_ops.hit_spec(), st.just(["leaf", "time", [], ["noop"]]), st.none(), st.sampled_from([{"tags": ["fn", "tags_echo"]}, {"time": ["fn", "time_other_zone"]}, {"unset_tags": "zz_absent"}]), st.just("db")).map(list),
+        st.tuples(st.just("remove"), st.just(["leaf", "tag", [["key", "zz_never"]], ["exists"]]), st.none(), st.just("db")).map(list),
     )
     seed_pts = draw(st.lists(pts, min_size=1, max_size=5))
     ops = [["insert_multiple", seed_pts, 0, "asis", "db", None, "m1"]] + draw(st.lists(setup_one, max_size=4)) + [draw(target)]
-    return {"ops": ops, "auto_index": draw(st.booleans()), "reads": draw(st.lists(st.integers(0, len(READ_Q) - 1), min_size=2, max_size=4)), "after_insert": draw(pts), "pick": draw(st.integers(0, 10**6))}
+    return {"ops": ops, "auto_index": draw(st.booleans()), "reads": draw(st.lists(st.integers(0, len(READ_Q) - 1), min_size=2, max_size=4)), "after_insert": draw(pts), "after_rewrite": draw(st.integers(0, len(REWRITES) - 1)), "pick": draw(st.integers(0, 10**6))}
 
 
 class _R:
@@ -315,6 +337,24 @@ def run_fault(case, k, when, events, s0, ctx, acc):
                 own = consistent_reads(db, case, info, acc, path)
                 if own is not None and own not in possible:
                     raise Violation("live-neither-old-nor-new", fcase, "%s: after a follow-up insert the live database holds %d points %s, not one of the %d acceptable contents" % (where, len(own), lockstep.brief(own), len(possible)))
+                # follow-up rewrite (update / remove): what an earlier faulted operation left in temporary storage must not leak into it
+                rw = REWRITES[case.get("after_rewrite", 0) % len(REWRITES)]
+                rewritten = [apply_rewrite(s_, rw) for s_ in possible]
+                try:
+                    if rw[0] == "remove":
+                        db.remove(qast.build(rw[1]))
+                    else:
+                        db.update(qast.build(rw[1]), **copy.deepcopy(rw[2]))
+                    possible = rewritten
+                    acc.cls("followup_rewrite_ok")
+                except Exception:
+                    possible = possible + rewritten
+                    acc.cls("followup_rewrite_raises")
+                possible = [s_ for i_, s_ in enumerate(possible) if s_ not in possible[:i_]]
+                self_check_file(path, possible, fcase, where + ", after a follow-up %s" % rw[0])
+                own = consistent_reads(db, case, info, acc, path)
+                if own is not None and own not in possible:
+                    raise Violation("live-neither-old-nor-new", fcase, "%s: after a follow-up %s the live database holds %d points %s, not one of the %d acceptable contents" % (where, rw[0], len(own), lockstep.brief(own), len(possible)))
             finally:
                 try:
                     db.close()
@@ -386,7 +426,7 @@ def run_shard(spec, ctx):
 
 def minimize(v, ctx, budget=40):
     """Drop setup operations while the same kind of failure remains (any fault position)."""
-    base = {k: v.case[k] for k in ("ops", "auto_index", "reads", "after_insert", "pick")}
+    base = {k: v.case[k] for k in ("ops", "auto_index", "reads", "after_insert", "after_rewrite", "pick") if k in v.case}
     ops = list(base["ops"])
     best = v
     i = 0
@@ -408,7 +448,7 @@ def minimize(v, ctx, budget=40):
 
 
 def replay(sub, case, ctx):
-    base = {k: case[k] for k in ("ops", "auto_index", "reads", "after_insert", "pick")}
+    base = {k: case[k] for k in ("ops", "auto_index", "reads", "after_insert", "after_rewrite", "pick") if k in case}
     if "fault_step" in case:
         events, s0, s1 = record(base, ctx)
         k = case["fault_step"]
